@@ -328,7 +328,7 @@ result<bool> url_pattern<regex_provider>::test(
 
   auto url =
       ada::parse<url_aggregator>(std::get<std::string_view>(input),
-                                 base_url.has_value() ? &*base_url : nullptr);
+                                 base_url_string ? &*base_url : nullptr);
   if (!url) {
     return false;
   }
@@ -453,8 +453,9 @@ result<std::optional<url_pattern_result>> url_pattern<regex_provider>::match(
       inputs.emplace_back(*base_url_string);
     }
 
-    url_aggregator* base_url_value =
-        base_url.has_value() ? &*base_url : nullptr;
+    // A default-constructed result holds a (default) value: only a base URL
+    // that was actually given and parsed may be handed to the parser.
+    url_aggregator* base_url_value = base_url_string ? &*base_url : nullptr;
 
     // Set url to the result of parsing input given baseURL.
     auto url = ada::parse<url_aggregator>(std::get<std::string_view>(input),
